@@ -9,8 +9,24 @@ def _isolate(fn):
     """a rule that cannot classify what it sees reports ANALYSIS-BROKEN for itself; the other rules of the property still run"""
     @_ft.wraps(fn)
     def w(run, *a, **k):
+        import signal as _sig
+
+        class _Budget(Exception):
+            pass
+
+        def _on_alarm(signum, frame):
+            raise _Budget()
+        nested = getattr(w, '_active', 0)
+        w.__dict__['_active'] = nested + 1
+        old_handler = None
+        if not _isolate.depth:
+            old_handler = _sig.signal(_sig.SIGALRM, _on_alarm)
+            _sig.alarm(int(_os.environ.get('VERIF_RULE_BUDGET_S', '180')))
+        _isolate.depth += 1
         try:
             return fn(run, *a, **k)
+        except _Budget:
+            run.analysis_broken(fn.__name__, 'the rule did not finish within its time budget (a construct makes the evaluation blow up): no verdict')
         except _F.AnalysisBroken as ex:
             run.analysis_broken(fn.__name__.upper().replace('RF', 'RF', 1), str(ex))
         except Exception as ex:  # an internal error of one rule must not hide the verdicts of the others
@@ -18,7 +34,16 @@ def _isolate(fn):
             run.analysis_broken(fn.__name__, 'internal error %s: %s @ %s' % (type(ex).__name__, ex, tb[-3].strip() if len(tb) >= 3 else ''))
             if _os.environ.get('VERIF_DEBUG'):
                 _tb.print_exc()
+        finally:
+            _isolate.depth -= 1
+            if not _isolate.depth:
+                _sig.alarm(0)
+                if old_handler is not None:
+                    _sig.signal(_sig.SIGALRM, old_handler)
     return w
+
+
+_isolate.depth = 0
 
 
 for _m in (rf_alloc, rf_state, rf_tables, rf_sig, rf_union, rf_flow, rf_vocab, rf_mir2c, rf_code, rf_bounds, rf_fold, rf_proto, rf_dispatch,
@@ -70,6 +95,8 @@ def c15_rf19(run):
     rf_tables.rf19e(run)
     rf_callmode.rf81(run)
     run.min_instances('RF81', 10)
+    rf_tables.rf94(run)
+    run.min_instances('RF94', 150)
 
 
 def c15_rf16h(run):
